@@ -1,4 +1,4 @@
 From Coq Require Import Extraction ExtrOcamlBasic.
 From Verif Require Import Rewrite.Model.
 Extraction Language OCaml.
-Extraction "model.ml" update_path_attrs.
+Extraction "model.ml" update_path_attrs export_attrs.
